@@ -1,26 +1,40 @@
 #!/usr/bin/env python3
-"""Generator of the mechanical preservation proofs of C04 (lean/TbbVerif/Proofs/C04/Struct[B-G].lean, OrigA/OrigB.lean,
-Reach[A-G].lean, WinA.lean).  Not run by the check: the generated .lean files are committed sources and are what
-`lake build` checks.  It exists so that the ~45 x (exec + begin) case analyses can be regenerated when the model's step
+"""Generator of the mechanical preservation proofs of C04 (lean/TbbVerif/Proofs/C04/Struct[A-G].lean, OrigA/OrigB.lean,
+HintA.lean, Reach[A-F].lean, WinA.lean).  Not run by the check: the generated .lean files are committed sources and are what
+`lake build` checks.  It exists so that the ~60 x (exec + begin) case analyses can be regenerated when the model's step
 function changes.  Each table entry: field name -> (statement over the post-state S, intro names, is the first bound
 variable a thread id, invariant fields used as hypotheses, lemmas for simp | lemmas for grind only).
+Hand-written proof files (not generated): Basic, Chain, Inv, Tactics, Frame (ownsUnique), StructAll, OrigInv, OrigAll, WinInv,
+WinAll, ReachInv, ReachLemmas, ReachLemmas2, ReachH-K (P1 `listed`), ReachAll, HintAll, NoReset, ResetLemmas, Final, Witness, Quiet.
 
-usage (from /verif/lean):  python3 ../harness/c04/gen_lean_proofs.py <OutModule> <ImportedModule> <field> [<field>...]
+usage (from lean/):  python3 ../harness/c04/gen_lean_proofs.py <OutModule> <ImportedModule> <field> [<field>...]
   the invocations that produced the committed files:
-    StructB StructA lmxBind lmxDes bindReg          | StructC StructB parSet isoRoot parDone ownsSt ownerPar
-    StructD StructC regMem snapPar rootPar createdLst | StructE StructD itemsOk itemsNodup preReg desGone createdPar
-    StructF StructE boundReg parAlive bindAlive dyingOk bindNotDying | StructG StructF dyingSt
+    StructA Frame regMx lmxWalk lmxOrph            | StructB StructA lmxBind lmxDes bindReg regPc actReg actWas bindAct
+    StructC StructB parSet isoRoot parDone ownsSt ownerPar | StructD StructC regMem snapPar rootPar createdLst
+    StructE StructD itemsOk itemsNodup preReg desGone createdPar | StructF StructE boundReg parAlive bindAlive dyingOk bindNotDying
+    StructG StructF dyingSt walkAct notWasEmpty ocItems
     OrigA OrigInv won paint copy | OrigB OrigA can | WinA WinInv copyT winsLe winsClr
-    ReachA ReachLemmas propMx propHeld noResetOp noResetPc epochLe | ReachB ReachA srcCan skipCan walkG syncG wonCan
-    ReachC ReachB snapLe copyTrue mhcReg mhcBind | ReachD ReachC epochNear epochFree epochWalk
-    ReachE ReachD snapEpoch pend painting | ReachF ReachLemmas2 walked | ReachG ReachF spec fbDone
+    HintA ReachLemmas rseq mhcReg mhcBind
+    ReachA HintA propMx propHeld epochLe joinedLe freshLe walkG syncG | ReachB ReachA snapLe copyTrue wstLe pstLe skipLe
+    ReachC ReachB epochNear epochFree | ReachC2 ReachC epochWalk | ReachD ReachC2 snapEpoch curCan pend
+    ReachE ReachLemmas2 painting walked | ReachF ReachE spec fbDone
 """
 import sys
 FIELDS = {
  # name: (statement over S, intro names (first = thread var or None), hypotheses (fields of Struct), grind lemmas)
- "lmxBind": ("∀ t' x p sn, S.pc t' = .bRegU x p sn → S.lmx t' = some t'", "t' x p sn h1", True, ["lmxWalk","lmxBind","lmxDes"], "Pc.walkIdx"),
- "lmxDes": ("∀ t' x L, S.pc t' = .dUnlock x → S.lst x = some L → S.lmx L = some t'", "t' x L h1 h2", True, ["lmxWalk","lmxBind","lmxDes","bindNotDying","dyingOk"], "Pc.walkIdx, Pc.bindTarget, Pc.destroying"),
+ "regMx": ("∀ t', (S.pc t').inReg = true → S.regMx = some t'", "t' h1", True, ["regMx"], "Pc.inReg"),
+ "lmxWalk": ("∀ t' i L, (S.pc t').walkIdx = some i → reg[i]? = some L → S.lmx L = some t'", "t' i L h1 h2", True, ["lmxWalk","lmxBind","lmxDes","lmxOrph"], "Pc.walkIdx"),
+ "lmxOrph": ("∀ t', S.pc t' = .xOrphU → S.lmx t' = some t'", "t' h1", True, ["lmxWalk","lmxBind","lmxDes","lmxOrph"], "Pc.walkIdx"),
+ "lmxBind": ("∀ t' x p sn, S.pc t' = .bRegU x p sn → S.lmx t' = some t'", "t' x p sn h1", True, ["lmxWalk","lmxBind","lmxDes","lmxOrph"], "Pc.walkIdx"),
+ "lmxDes": ("∀ t' x L, S.pc t' = .dUnlock x → S.lst x = some L → S.lmx L = some t'", "t' x L h1 h2", True, ["lmxWalk","lmxBind","lmxDes","lmxOrph","bindNotDying","dyingOk"], "Pc.walkIdx, Pc.bindTarget, Pc.destroying"),
  "bindReg": ("∀ t', (S.pc t').isBind = true → t' ∈ reg", "t' h1", True, ["bindReg"], "Pc.isBind"),
+ "regPc": ("∀ t', S.pc t' = .gLock → t' ∈ reg ∧ S.act t' = false ∧ S.wasReg t' = false", "t' h1", True, ["regPc"], ""),
+ "actReg": ("∀ u, S.act u = true → u ∈ reg", "u h1", False, ["actReg","regPc"], ""),
+ "actWas": ("∀ u, S.act u = true → S.wasReg u = true", "u h1", False, ["actWas","regPc"], ""),
+ "bindAct": ("∀ t', (S.pc t').isBind = true → S.act t' = true", "t' h1", True, ["bindAct"], "Pc.isBind"),
+ "walkAct": ("∀ t' i L, (S.pc t').atList = some i → reg[i]? = some L → S.act L = true", "t' i L h1 h2", True, ["walkAct","regMx"], "Pc.inReg | Pc.atList, → nextList_atList, → Pc.atList_inReg"),
+ "notWasEmpty": ("∀ L, S.wasReg L = false → S.items L = []", "L h1", False, ["notWasEmpty","bindAct","actWas","regPc"], "Pc.isBind"),
+ "ocItems": ("∀ L x, x ∈ S.items L → S.act L = false → S.oc x = true", "L x h1 h2", False, ["ocItems","bindAct"], "Pc.isBind, List.mem_cons, List.mem_of_mem_erase"),
  "parSet": ("∀ x p, S.par x = some p → S.cst x ≠ .created ∧ S.depth x = S.depth p + 1", "x p h1", False, ["parSet","parDone","bindAlive"], "Pc.bindParent, okParent"),
  "isoRoot": ("∀ x, S.cst x = .isolated → S.par x = none", "x h1", False, ["isoRoot","ownsSt","ownerPar"], "Pc.owner, Pc.owns"),
  "parDone": ("∀ y p, S.par y = some p → S.cst p ≠ .created ∧ S.cst p ≠ .locked", "y p h1", False, ["parDone","bindAlive","ownsSt"], "Pc.bindParent, Pc.owns, okParent"),
@@ -50,37 +64,44 @@ FIELDS = {
 RF = {
  "propMx": ("∀ t', (S.pc t').inProp = true → S.propMx = some t'", "t' h1", True, ["R.propMx"], "Pc.inProp"),
  "propHeld": ("∀ t', S.propMx = some t' → (S.pc t').inProp = true", "t' h1", True, ["R.propMx","R.propHeld"], "Pc.inProp"),
- "noResetOp": ("∀ t' x, Op.reset x ∉ S.prog t'", "t' x", True, ["R.noResetOp"], "List.mem_cons"),
- "noResetPc": ("∀ t' x, S.pc t' ≠ .rStore x", "t' x", True, ["R.noResetPc","R.noResetOp"], "List.mem_cons"),
  "epochLe": ("∀ L, S.epoch L ≤ S.G", "L", False, ["R.epochLe","R.syncG"], ""),
- "srcCan": ("∀ n, 1 ≤ n → n ≤ S.G → S.can (S.srcOf n) = true", "n h1 h2", False, ["R.srcCan","R.noResetPc","R.copyTrue","R.wonCan"], "Pc.copyVal, Pc.wonSrc"),
- "skipCan": ("∀ x, S.skip x = true → S.can x = true", "x h1", False, ["R.skipCan","R.noResetPc","R.copyTrue","R.wonCan"], "Pc.copyVal, Pc.wonSrc"),
+ "joinedLe": ("∀ L, S.joined L ≤ S.G", "L", False, ["R.joinedLe"], ""),
+ "freshLe": ("∀ L, S.fresh L = true → S.epoch L ≤ S.joined L", "L h1", False, ["R.freshLe","R.epochLe","S.walkAct","S.regPc"], "Pc.atList"),
  "walkG": ("∀ t' a, (S.pc t').walkSrc = some a → S.srcOf S.G = a ∧ 1 ≤ S.G", "t' a h1", True, ["R.walkG","S.regMx"], "Pc.walkSrc, Pc.inReg, Pc.walkSrc_inReg"),
  "syncG": ("∀ t' a i g, S.pc t' = .cSync a i g → g = S.G", "t' a i g h1", True, ["R.syncG","S.regMx"], "Pc.inReg"),
- "wonCan": ("∀ t' a, (S.pc t').wonSrc = some a → S.can a = true", "t' a h1", True, ["R.wonCan","R.noResetPc","R.copyTrue"], "Pc.wonSrc, Pc.copyVal"),
  "snapLe": ("∀ t' n, (S.pc t').snapVal = some n → n ≤ S.G", "t' n h1", True, ["R.snapLe","R.epochLe"], "Pc.snapVal"),
  "copyTrue": ("∀ t' p v, (S.pc t').copyVal = some (p, v) → v = true", "t' p v h1", True, ["R.copyTrue"], "Pc.copyVal"),
- "mhcReg": ("∀ L x p, x ∈ S.items L → S.par x = some p → S.mhc p = true", "L x p h1 h2", False, ["R.mhcReg","R.mhcBind","S.ownerPar","S.itemsOk","S.createdPar"], "Pc.pastHint, Pc.owner, List.mem_cons, List.mem_of_mem_erase"),
- "mhcBind": ("∀ t' p, (S.pc t').pastHint = some p → S.mhc p = true", "t' p h1", True, ["R.mhcBind"], "Pc.pastHint"),
- "epochNear": ("∀ L, L ∈ reg → S.epoch L = S.G ∨ S.epoch L + 1 = S.G", "L h1", False, ["R.epochNear","R.epochWalk","R.propMx","R.syncG"], "Pc.inProp, Pc.walkFrom"),
- "epochFree": ("∀ L, L ∈ reg → S.propMx = none → S.epoch L = S.G", "L h1 h2", False, ["R.epochFree","R.epochWalk","R.propMx","R.syncG"], "Pc.inProp, Pc.walkFrom"),
- "epochWalk": ("∀ t' L, L ∈ reg → S.propMx = some t' → S.epoch L ≠ S.G → ∃ j, (S.pc t').walkFrom = some j ∧ L ∈ reg.drop j", "t' L h1 h2 h3", True, ["R.epochWalk","R.epochFree","R.propMx","R.syncG","R.epochNear"], "Pc.inProp, Pc.walkFrom, mem_drop_succ, drop_nil_of_len, drop_nil_of_none, List.drop_zero"),
- "snapEpoch": ("∀ t' x p n L, S.pc t' = .bSpecL x p n → S.lst p = some L → n ≤ S.epoch L", "t' x p n L h1 h2", True, ["R.snapEpoch","R.epochLe","R.syncG","S.bindAlive","S.ownsSt","S.dyingOk"], "Pc.bindParent, Pc.owns, Pc.destroying, okParent"),
- "pend": ("∀ a, 1 ≤ S.wins a → PassedUpTo S.skip S.srcOf S.G a ∨ ∃ t', (S.pc t').preWalk = some a", "a h1", False, ["R.pend","R.wonCan"], "Pc.preWalk, Pc.wonSrc, passed_upd_skip, passed_bump"),
- "painting": ("∀ t' a i x chain rest, S.pc t' = .cPaint a i x chain rest → S.can x = true ∨ chain.head? = some x", "t' a i x chain rest h1", True, ["R.painting","R.noResetPc","R.copyTrue"], "chainUp_sound, Pc.copyVal"),
- "walked": ("∀ t' a i pend L z, (S.pc t').pending = some (a, i, pend) → reg[i]? = some L → z ∈ S.items L → z ∈ pend ∨ (Anc S.par z a → S.can z = true)", "t' a i pend L z h1 h2 h3", True, ["R.walked","R.painting","R.noResetPc","R.copyTrue","S.lmxWalk","S.lmxBind","S.createdPar","S.parDone","S.itemsOk"], "Pc.pending, Pc.pending_walk, Pc.walkIdx, Pc.copyVal, chain_none_not_anc, chain_some_head, anc_irrefl_s, anc_cas_back, ne_of_registered_created, List.mem_cons, List.mem_of_mem_erase"),
- "spec": ("∀ t' x n a, (S.pc t').afterSpec = some (x, n) → PassedUpTo S.skip S.srcOf n a → Anc S.par x a → S.can x = true", "t' x n a h1 h2 h3", True, ["R.spec","R.copyTrue","R.noResetPc","R.snapLe"], "Pc.afterSpec, Pc.copyVal, Pc.snapVal | → Pc.afterSpec_owner, → passed_below_bump, passed_upd_skip, → ne_of_locked_created"),
- "fbDone": ("∀ t' x p a, S.pc t' = .bFbU x p → PassedUpTo S.skip S.srcOf S.G a → Anc S.par x a → S.can x = true", "t' x p a h1 h2 h3", True, ["R.fbDone","R.copyTrue","R.noResetPc","R.propMx","S.ownsSt"], "Pc.copyVal, Pc.inProp, Pc.owns | passed_upd_skip, passed_bump, → ne_of_locked_created"),
- "listed": ("∀ L x a, x ∈ S.items L → PassedUpTo S.skip S.srcOf (S.epoch L) a → Anc S.par x a → S.can x = true ∨ ∃ t', (S.pc t').coverOf S.G = some x", "L x a h1 h2 h3", False, ["R.listed","R.spec","R.copyTrue","R.noResetPc","R.snapLe","R.epochLe","R.epochNear","R.syncG","R.walkG","R.walked","S.itemsOk"], "Pc.coverOf, Pc.afterSpec, Pc.copyVal, Pc.pending, Pc.walkSrc, Pc.snapVal | → passed_below_bump, passed_upd_skip, → passed_mono, → Pc.coverOf_mono, → mem_of_getElem?_some, List.mem_cons, → List.mem_of_mem_erase"),
+ "epochNear": ("∀ L, L ∈ reg → S.act L = true → S.eff L = S.G ∨ S.eff L + 1 = S.G", "L h1 h2", False, ["R.epochNear","R.epochWalk","R.propMx","R.syncG","S.regMx"], "Pc.inProp, Pc.walkFrom, Pc.inReg, St.eff"),
+ "epochFree": ("∀ L, L ∈ reg → S.act L = true → S.propMx = none → S.eff L = S.G", "L h1 h2 h3", False, ["R.epochFree","R.epochWalk","R.propMx","R.syncG","S.regMx"], "Pc.inProp, Pc.walkFrom, Pc.inReg, St.eff"),
+ "epochWalk": ("∀ t' L, L ∈ reg → S.act L = true → S.propMx = some t' → S.eff L ≠ S.G → ∃ j, (S.pc t').walkFrom = some j ∧ L ∈ reg.drop j", "t' L h1 h2 h3 h4", True, ["R.epochWalk","R.epochFree","R.propMx","R.syncG","R.epochNear","S.regMx"], "Pc.inProp, Pc.inReg, St.eff | Pc.walkFrom, mem_drop_succ, drop_nil_of_len, drop_nil_of_none, List.drop_zero, nextList_cases"),
+ "snapEpoch": ("∀ t' x p n L, S.pc t' = .bSpecL x p n → S.lst p = some L → n ≤ S.eff L", "t' x p n L h1 h2", True, ["R.snapEpoch","R.epochLe","R.joinedLe","R.freshLe","R.syncG","S.bindAlive","S.ownsSt","S.dyingOk","S.regPc","S.itemsOk","S.notWasEmpty"], "Pc.bindParent, Pc.owns, Pc.destroying, okParent, St.eff"),
+ "wstLe": ("∀ a, S.wst a ≤ S.clk", "a", False, ["R.wstLe"], ""),
+ "pstLe": ("∀ n, S.pst n ≤ S.clk", "n", False, ["R.pstLe","R.wstLe"], ""),
+ "skipLe": ("∀ a, S.skipSt a ≤ S.clk", "a", False, ["R.skipLe","R.wstLe"], ""),
+ "curCan": ("∀ a m, Cur S.wst S.rst a m → S.can a = true", "a m h1", False, ["R.curCan","R.copyTrue","R.wstLe"], "Pc.copyVal | → cur_upd_wst, → cur_upd_rst"),
+ "pend": ("∀ a m, Cur S.wst S.rst a m → Passed S.skipSt S.srcOf S.pst S.G a m ∨ ∃ t', (S.pc t').preWalk = some a", "a m h1", False, ["R.pend","R.curCan","R.wstLe"], "Pc.preWalk | → cur_wst, → cur_upd_wst, → cur_upd_rst, passed_upd_skip_fwd, passed_upd_skip_self, passed_bump"),
+ "painting": ("∀ t' a i x chain rest, S.pc t' = .cPaint a i x chain rest → Vf S.par S.can S.rst S.oc (S.pst S.G) a x ∨ chain.head? = some x", "t' a i x chain rest h1", True, ["R.painting","R.copyTrue","R.pstLe","S.regMx"], "Pc.copyVal, Pc.inReg | chainUp_sound, vf_upd_true, vf_upd_true_self, vf_reset, vf_exit"),
+ "walked": ("∀ t' a i pend L z, (S.pc t').pending = some (a, i, pend) → reg[i]? = some L → z ∈ S.items L → z ∈ pend ∨ (Anc S.par z a → Vf S.par S.can S.rst S.oc (S.pst S.G) a z)", "t' a i pend L z h1 h2 h3", True, ["R.walked","R.painting","R.copyTrue","R.pstLe","S.regMx","S.lmxWalk","S.lmxBind","S.createdPar","S.parDone","S.itemsOk"], "Pc.pending, Pc.pending_walk, Pc.walkIdx, Pc.copyVal, Pc.inReg, nextList_pending, nextList_inReg, nextList_walkIdx, nextList_copyVal | → Pc.pending_inReg, chain_none_not_anc, chain_some_head, anc_irrefl_s, anc_cas_back, ne_of_registered_created, List.mem_cons, List.mem_of_mem_erase, vf_upd_true, vf_upd_true_self, vf_reset, vf_exit, vf_can"),
+ "spec": ("∀ t' x n a m, (S.pc t').afterSpec = some (x, n) → Passed S.skipSt S.srcOf S.pst n a m → Cur S.wst S.rst a m → Anc S.par x a → Vf S.par S.can S.rst S.oc m a x", "t' x n a m h1 h2 h3 h4", True, ["R.spec","R.copyTrue","R.snapLe","R.wstLe"], "Pc.afterSpec, Pc.copyVal, Pc.snapVal | → Pc.afterSpec_owner, → passed_below_bump, → passed_upd_skip_back, → ne_of_locked_created, → cur_upd_wst, → cur_upd_rst, vf_upd_true, vf_upd_true_self, vf_reset, vf_exit"),
+ "fbDone": ("∀ t' x p a m, S.pc t' = .bFbU x p → Passed S.skipSt S.srcOf S.pst S.G a m → Cur S.wst S.rst a m → Anc S.par x a → Vf S.par S.can S.rst S.oc m a x", "t' x p a m h1 h2 h3 h4", True, ["R.fbDone","R.copyTrue","R.propMx","R.wstLe","S.ownsSt"], "Pc.copyVal, Pc.inProp, Pc.owns | → passed_upd_skip_back, passed_bump, → ne_of_locked_created, → cur_upd_wst, → cur_upd_rst, vf_upd_true, vf_upd_true_self, vf_reset, vf_exit"),
 }
+HF = {
+ "rseq": ("∀ t' x l, S.pc t' = .rSeq x l → RF.mhc ∉ l", "t' x l h1", True, ["H.rseq"], "List.mem_cons"),
+ "mhcReg": ("∀ L x p, x ∈ S.items L → S.par x = some p → S.mhc p = true", "L x p h1 h2", False, ["H.mhcReg","H.mhcBind","H.rseq","S.ownerPar","S.itemsOk","S.createdPar"], "Pc.pastHint, Pc.owner, List.mem_cons, List.mem_of_mem_erase"),
+ "mhcBind": ("∀ t' p, (S.pc t').pastHint = some p → S.mhc p = true", "t' p h1", True, ["H.mhcBind","H.rseq"], "Pc.pastHint, List.mem_cons"),
+}
+FIELDS.update(HF)
 FIELDS.update(RF)
 RFIELDS = set(RF)
 LOCAL = {
- "spec": ["@snap_le_of_afterSpec reg s hR", "@spec_establish reg s hS hR", "@no_anc_afterSpec reg s hS hR", "@locked_afterSpec reg s hS", "@anc_cas_back reg s hS"],
- "listed": ["@listed_sync reg s hS hR", "@fb_establish reg s hS hR", "@root_establish reg s hS hR", "@no_anc_of_hint_clear_reg reg s hS hR", "@anc_cas_back reg s hS", "@ne_of_registered_created reg s hS"],
- "fbDone": ["@fb_establish reg s hS hR", "@no_anc_fbU reg s hS hR", "@anc_cas_back reg s hS"],
+ "spec": ["@snap_le_of_afterSpec reg s hR", "@spec_establish reg s hS hR", "@no_anc_afterSpec reg s hS hH", "@locked_afterSpec reg s hS", "@anc_cas_back reg s hS", "@passed_le_s reg s hR", "@cur_le_s reg s hR", "@vf_cas reg s hS"],
+ "fbDone": ["@fb_establish reg s hS hR", "@no_anc_fbU reg s hS hH", "@anc_cas_back reg s hS", "@passed_le_s reg s hR", "@cur_le_s reg s hR", "@vf_cas reg s hS"],
+ "walked": ["@vf_cas reg s hS"],
+ "painting": ["@vf_cas reg s hS"],
 }
-HEAVY = {'walked','spec','fbDone','listed'}
+PREPASS = {"walked": "nextList_pending, nextList_inReg, nextList_walkIdx, nextList_copyVal"}
+KEEP_NEXTLIST = {"walkAct", "epochWalk", "walked"}
+HEAVY = {'walked','spec','fbDone'}
 WF = {
  "copyT": ("∀ t' p v, (S.pc t').copyVal = some (p, v) → v = true", "t' p v h1", True, ["W.copyT"], "Pc.copyVal"),
  "winsLe": ("∀ x, S.wins x ≤ S.resets x + 1", "x", False, ["W.winsLe","W.winsClr"], ""),
@@ -90,17 +111,18 @@ FIELDS.update(WF)
 EXTRA = {"walked": ["all_goals (have gw := fun t' a i pend (h : (s.pc t').pending = some (a, i, pend)) => (Pc.pending_walk h).1)"],
  "can": ["all_goals (try (have hp := g2t _ _ _ _ _ rfl rfl rfl rfl rfl; simp at hp))"]}
 SIG = {"can": " (hO : Orig s)", "won": " (hO : Orig s)", "paint": " (hO : Orig s)", "copy": " (hO : Orig s)"}
-for k in RF: SIG[k] = " (hO : Orig s) (hR : Reach reg s)"
+for k in RF: SIG[k] = " (hO : Orig s) (hH : Hint s) (hR : Reach reg s)"
+for k in HF: SIG[k] = " (hm : RF.mhc ∉ cfg.resetSeq) (hH : Hint s)"
 for k in WF: SIG[k] = " (hc : cfg.copyNeverClears = true) (hW : Win s)"
-NOTHREAD = {"W.winsLe","W.winsClr","R.noResetPcX","R.epochLe","R.epochNear","R.epochFree","R.srcCan","R.skipCan","R.pend","R.listed","R.mhcReg","O.can","S.createdPar","S.parDone","createdPar","parSet","isoRoot","parDone","itemsOk","itemsNodup","createdLst","boundReg","parAlive","dyingSt"}
+NOTHREAD = {"R.joinedLe","R.freshLe","actReg","actWas","notWasEmpty","ocItems","W.winsLe","W.winsClr","R.epochLe","R.epochNear","R.epochFree","R.wstLe","R.pstLe","R.skipLe","R.curCan","R.pend","R.listed","H.mhcReg","O.can","S.createdPar","S.parDone","createdPar","parSet","isoRoot","parDone","itemsOk","itemsNodup","createdLst","boundReg","parAlive","dyingSt"}
 def emit_one(name, kind, fam=None):
     stmt, names, thr, hyps, lem = FIELDS[name]
     glem = lem.replace("|", ",")
     lem = lem.split("|")[0].strip().rstrip(",")
     isR = name in RFIELDS
-    cfgx = "C" if isR else "cfg"
+    cfgx = "(C r)" if isR else "cfg"
     if kind == "begin":
-        S = "(begin reg s t)"; tname = "%s_begin" % name
+        S = "(begin %s reg s t)" % cfgx; tname = "%s_begin" % name
     elif fam == "c":
         S = "(execCancel %s reg s t)" % cfgx; tname = "%s_exec_c" % name
     elif fam == "b":
@@ -111,6 +133,8 @@ def emit_one(name, kind, fam=None):
     out = ("set_option maxHeartbeats 1600000 in\n" if name in HEAVY else "") + ("theorem %s (hS : Struct reg s)" + SIG.get(name, "") + "%s :\n    %s := by\n") % (tname, " (hi : s.pc t = .idle)" if kind == "begin" else "", stmt.replace("S.", S + "."))
     def src(h):
         return ("h" + h) if "." in h else ("hS." + h)
+    if name in HF:
+        out += "  have hm' : RF.mhc ∉ cfg.resetSeq := hm\n"
     for i, h in enumerate(hyps):
         out += "  have g%d := %s\n" % (i, src(h))
         if h not in NOTHREAD:
@@ -121,7 +145,7 @@ def emit_one(name, kind, fam=None):
         out += "  begin_cases\n"
     else:
         out += "  unfold %s\n" % {"c": "execCancel", "b": "execBind", "o": "execOther"}[fam]
-        out += "  try unfold walkNext\n  try unfold afterHint\n"
+        out += "  try unfold walkNext\n  try unfold afterHint\n  try unfold applyReset\n"
         if isR:
             out += "  try simp only [C_propHolds, C_copyNeverClears, afterLists, ↓reduceIte, Bool.true_and]\n"
         out += "  repeat' split\n"
@@ -132,9 +156,13 @@ def emit_one(name, kind, fam=None):
     if kind == "exec":
         for line in EXTRA.get(name, []):
             out += "  " + line + "\n"
-    sl = ("C, " if isR else "") + "upd_apply, afterLists, nextList"
+    sl = ("C, St.eff, " if isR else "") + "upd_apply, afterLists, nextList"
+    if name in KEEP_NEXTLIST:
+        sl = ("C, St.eff, " if isR else "") + "upd_apply, afterLists"
     if thr == "two":
         out += "  all_goals (intro %s; by_cases ht1 : t1 = t <;> by_cases ht2 : t2 = t <;> try simp [ht1, ht2, %s] at %s ⊢)\n" % (names, sl, hn)
+    elif thr and name in PREPASS:
+        out += "  all_goals (intro %s; by_cases ht : t' = t <;> first | (subst ht; (try simp only [upd_same, setPc_pc, finishCancel_pc, %s] at %s ⊢); try simp [%s, %s] at %s ⊢) | (try simp [ht, %s] at %s ⊢))\n" % (names, PREPASS[name], hn, sl, lem, hn, sl, hn)
     elif thr:
         out += "  all_goals (intro %s; by_cases ht : t' = t <;> first | (subst ht; try simp [%s, %s] at %s ⊢) | (try simp [ht, %s] at %s ⊢))\n" % (names, sl, lem, hn, sl, hn)
     else:
@@ -147,22 +175,23 @@ def emit(name, kind):
         return emit_one(name, "begin")
     stmt = FIELDS[name][0]
     isR = name in RFIELDS
-    cfgx = "C" if isR else "cfg"
+    cfgx = "(C r)" if isR else "cfg"
     out = emit_one(name, "exec", "c") + emit_one(name, "exec", "b") + emit_one(name, "exec", "o")
     S = "(exec %s reg s t)" % cfgx
-    args = "hS" + (" hO" if "hO" in SIG.get(name, "") else "") + (" hR" if "hR" in SIG.get(name, "") else "") + (" hc hW" if "hW" in SIG.get(name, "") else "")
+    args = "hS" + (" hO" if "hO" in SIG.get(name, "") else "") + (" hm" if "(hm " in SIG.get(name, "") else "") + (" hH" if "hH" in SIG.get(name, "") else "") + (" hR" if "hR" in SIG.get(name, "") else "") + (" hc hW" if "hW" in SIG.get(name, "") else "")
     out += ("theorem %s_exec (hS : Struct reg s)" + SIG.get(name, "") + " :\n    %s := by\n") % (name, stmt.replace("S.", S + "."))
     out += "  unfold exec\n  split\n  · exact %s_exec_c %s\n  · split\n    · exact %s_exec_b %s\n    · exact %s_exec_o %s\n\n" % (name, args, name, args, name, args)
     return out
 
 def main():
     fname, prev, names = sys.argv[1], sys.argv[2], sys.argv[3:]
-    out = "/-\nC04 proofs — structural invariants (%s): preservation by `exec` and `begin`.\n-/\nimport TbbVerif.Proofs.C04.%s\n\nnamespace TbbVerif.C04\nvariable {cfg : Cfg} {reg : List Nat} {s : St} {t : Nat}\n\n" % (", ".join(n.replace(":b", "") for n in names), prev)
+    out = "/-\nC04 proofs — structural invariants (%s): preservation by `exec` and `begin`.\n-/\nimport TbbVerif.Proofs.C04.%s\n\nnamespace TbbVerif.C04\nvariable {cfg : Cfg} {r : List RF} {reg : List Nat} {s : St} {t : Nat}\n\n" % (", ".join(n.replace(":b", "") for n in names), prev)
     for nm in names:
         if nm.endswith(":b"):
             out += emit(nm[:-2], "begin")
         else:
             out += emit(nm, "exec") + emit(nm, "begin")
     out += "end TbbVerif.C04\n"
-    open("/verif/lean/TbbVerif/Proofs/C04/%s.lean" % fname, "w").write(out)
+    import os
+    open(os.path.join(os.path.dirname(os.path.abspath(__file__)), "..", "..", "lean", "TbbVerif", "Proofs", "C04", "%s.lean" % fname), "w").write(out)
 main()
